@@ -5,7 +5,7 @@ import torch
 from hypothesis import strategies as st
 
 from vlib import aggs
-from vlib.matrices import SEEDS, build, eps_of
+from vlib.matrices import case_tensor, widened, SEEDS, build, eps_of
 from vlib.runner import RAISED, Outcome, Part
 
 ID = "C17"
@@ -60,7 +60,7 @@ def _case(draw):
 
 def parts(tier):
     n = 6_000 if tier == "quick" else 150_000
-    return [Part("generated", "given", n=n, strategy=_case)]
+    return [Part("generated", "given", n=n, strategy=lambda: widened(_case()))]
 
 
 def run_case(case) -> Outcome:
@@ -68,7 +68,7 @@ def run_case(case) -> Outcome:
     name, dtype = case["agg"], case["dtype"]
     eps = eps_of(dtype)
     tdt = getattr(torch, dtype)
-    Jt = torch.tensor(case["J"], dtype=tdt)
+    Jt = case_tensor(case, tdt)
     J = Jt.double().numpy()
     m, n = J.shape
     out.cls(name, dtype, "pref:" + ("custom" if case["pref"] is not None else "default"))
